@@ -67,6 +67,18 @@ def configure_logging(level_name):
     return root
 
 
+def set_verbosity(level_name):
+    """Change the verbosity of an already configured root logger."""
+    if level_name not in LOGGING_FORMATS:
+        logger.warning("Unknown verbosity level '%s' in configuration", level_name)
+        return
+    root = logging.getLogger()
+    for handler in root.handlers:
+        if isinstance(handler.formatter, ColorFormatter):
+            handler.setFormatter(ColorFormatter(fmt=LOGGING_FORMATS[level_name]))
+    root.setLevel(get_level(level_name))
+
+
 def init(project_dir):
     """Initialize a new gwf workflow.
 
@@ -125,7 +137,7 @@ def init(project_dir):
     "-v",
     "--verbose",
     type=click.Choice(["warning", "debug", "info", "error"]),
-    default="info",
+    default=None,
     help="Verbosity level.",
 )
 @click.option(
@@ -141,7 +153,7 @@ def main(ctx, file, backend, verbose, no_color):
 
     Shows help for the status command.
     """
-    configure_logging(level_name=verbose)
+    configure_logging(level_name=verbose or "info")
 
     try:
         path, obj_name = find_workflow(file)
@@ -160,6 +172,10 @@ def main(ctx, file, backend, verbose, no_color):
     working_dir.joinpath(".gwf", "logs").mkdir(exist_ok=True)
 
     config = FileConfig.load(working_dir.joinpath(".gwfconf.json"))
+
+    # The -v/--verbose flag takes precedence over the project configuration.
+    if verbose is None:
+        set_verbosity(config.get("verbose", "info"))
 
     # If the --use-color/--no-color argument is not set, get a value from the
     # configuration file. If nothing has been configured, check if the NO_COLOR
